@@ -33,7 +33,7 @@ def budget(tier):
     return {"examples": 160000, "shards": 16}
 
 
-DRIVES = ["start", "start", "start", "rut-beyond", "ruti-end", "ruti-beyond", "rut-clock-first", "steps", "after-cleanup"]
+DRIVES = ["start", "start", "start", "rut-beyond", "ruti-end", "ruti-beyond", "rut-clock-first", "steps", "after-cleanup", "ruti-clock-first"]
 
 
 def strategy(tier):
@@ -144,6 +144,17 @@ def run_case(case):
             if h.model.trace:
                 out.fail("executed-at-exclusive-bound", {"bound": t0, "executed": h.model.trace[:3],
                                                          "err": repr(e0) if e0 else None})
+            case = dict(case, drive="start")
+        if case.get("drive") == "ruti-clock-first":
+            # an inclusive bound equal to the clock: exactly the events AT the clock run (a run of zero length is
+            # not a no-op when events are pending at that instant)
+            r3 = RefSim(case)
+            r3.initialize()
+            r3.run(r3.clock, True)
+            e0 = h.run_piece(["run_up_to_incl", case["rep"]["start"]])
+            if h.model.trace != r3.trace:
+                out.fail("zero-length-inclusive-run", {"executed": h.model.trace[:4], "want": r3.trace[:4],
+                                                       "err": repr(e0) if e0 else None})
             case = dict(case, drive="start")
         if case.get("drive") == "steps":
             # every event is carried out by a single step(); the final start() only ends the replication
